@@ -761,13 +761,11 @@ class TextXMetaModel(DebugPrinter):
                     # repositories (a model without file name is registered
                     # there under a generated name by some scope providers).
                     from textx.scoping import (
-                        get_included_models,
+                        get_models_loaded_with,
                         remove_models_from_repositories,
                     )
 
-                    loaded_models = [
-                        m for m in get_included_models(model) if id(m) not in cached_ids
-                    ]
+                    loaded_models = get_models_loaded_with(model, cached_ids)
                     remove_models_from_repositories(loaded_models, loaded_models)
                 raise
         else:
@@ -855,11 +853,9 @@ class TextXMetaModel(DebugPrinter):
                 is_main_model=is_main_model,
             )
             if is_main_model and hasattr(model, "_tx_model_repository"):
-                from textx.scoping import get_included_models
+                from textx.scoping import get_models_loaded_with
 
-                loaded_models = [
-                    m for m in get_included_models(model) if id(m) not in cached_ids
-                ]
+                loaded_models = get_models_loaded_with(model, cached_ids)
 
             # Model processors are called once per loaded model. A model
             # found in the global repository has been processed when it was
